@@ -91,6 +91,8 @@ def run_mixture(case, R):
                 ll = float(model.log_likelihood(data['y'])) if (kind == 'cacgmm' and s.mask is None) else None
                 fp = scen.fit_predict(s2)
         except Exception as e:
+            if not instr.is_library_exception(e):
+                raise
             return ('raised', type(e).__name__, str(e)[:100])
         return ('ok', model, post, ev, ll, fp)
 
@@ -195,6 +197,8 @@ def run_dist(case, R):
         try:
             out.append(fit(yy))
         except Exception as e:
+            if not instr.is_library_exception(e):
+                raise
             out.append(e)
     if isinstance(out[0], Exception) or isinstance(out[1], Exception):
         if isinstance(out[0], Exception) and isinstance(out[1], Exception):
